@@ -220,6 +220,45 @@ def check_width(case):
     return ["nt"] if len(sizes) >= 2 else []
 
 
+def check_group_constant(case):
+    """Predictions that are constant within each group: whatever rows a resample draws, a group's selection rate
+    is its constant, so every by_group_ci entry must be exactly that constant (or NaN when the group was never
+    drawn) - rows of different groups must never be mixed."""
+    from fairlearn.metrics import MetricFrame, count, selection_rate
+
+    g = case["groups"]
+    const = case["const"]
+    n = len(g)
+    yp = [const[x] for x in g]
+    mf = MetricFrame(metrics={"sel": selection_rate, "cnt": count}, y_true=[0] * n, y_pred=yp, sensitive_features=g,
+                     n_boot=case["n_boot"], ci_quantiles=list(case["quantiles"]), random_state=case["seed"])
+    sizes = {k: g.count(k) for k in set(g)}
+    for qi, entry in enumerate(mf.by_group_ci):
+        M.need(isinstance(entry, pd.DataFrame) and list(entry.columns) == ["sel", "cnt"], f"by_group_ci[{qi}] is {type(entry).__name__}")
+        M.need(set(entry.index) <= set(sizes), f"by_group_ci[{qi}] index {list(entry.index)} has groups that do not exist")
+        for k in entry.index:
+            v = entry.loc[k, "sel"]
+            M.need(pd.isna(v) or float(v) == float(const[k]),
+                   f"by_group_ci[{qi}][{k!r}] selection rate {v!r}: every row of group {k!r} predicts {const[k]}, so any resample gives {const[k]} (n_boot={case['n_boot']}, seed={case['seed']})")
+            c = entry.loc[k, "cnt"]
+            M.need(pd.isna(c) or 1 <= float(c) <= n, f"by_group_ci[{qi}][{k!r}] count {c!r}")
+    return ["nt", f"n_boot={case['n_boot']}"] + (["rare_groups>=2"] if sum(1 for v in sizes.values() if v == 1) >= 2 else [])
+
+
+@st.composite
+def _group_constant_case(draw):
+    labels = ["a", "b", "c", "d", "e"]
+    k = draw(st.integers(2, 5))
+    sizes = [draw(st.sampled_from([1, 1, 1, 2, 4])) for _ in range(k)]
+    g = []
+    for lab, s_ in zip(labels, sizes):
+        g += [lab] * s_
+    g = [g[i] for i in draw(st.permutations(range(len(g))))]
+    return {"groups": g, "const": {lab: draw(st.integers(0, 1)) for lab in labels[:k]},
+            "n_boot": draw(st.sampled_from([2, 2, 3, 3, 5, 10])), "seed": draw(st.integers(0, 2**31 - 1)),
+            "quantiles": draw(st.sampled_from([[0.5], [0.1, 0.9], [0.02, 0.5, 0.98]]))}
+
+
 @st.composite
 def _case(draw):
     c = draw(M.mf_case(metric_keys=("selection_rate", "count", "wmean", "const", "selection_rate"),
@@ -249,4 +288,6 @@ SUBS = [
         floors={"nt": 0.25, "control": 0.15, "dict": 0.3, "quantiles>=2": 0.356, "index_equality_checked": 0.02}),
     Sub("width", check_width, strategy=_width_case, quick=30, thorough=600, shards=8, shrink_quick=False,
         floors={"nt": 0.2}),
+    Sub("group_constant_predictions", check_group_constant, strategy=_group_constant_case, quick=400, thorough=8000, shards=16,
+        floors={"rare_groups>=2": 0.3}),
 ]
